@@ -124,16 +124,33 @@ def run_book(ctx, bi, ncalls, replay=None, source=None):
         return obs(lambda: ex.get_cell(Cell(si, c - 1, r_ - 1)).value)
 
     refA, refB = {}, {}
+    # executor A receives its overrides in 1-3 set_cells calls with queries in between: after each call the values must be those of
+    # a fresh executor given everything supplied so far at once
+    if replay and replay.get('stagesA'):
+        cuts = replay['stagesA']
+    else:
+        n_st = min(rng.choice([1, 1, 2, 3]), len(ovA)) if len(ovA) >= 2 else 1
+        cuts = sorted(rng.sample(range(1, len(ovA)), n_st - 1)) + [len(ovA)] if ovA else [0]
+    items_A = list(ovA.items())
+    stagesA = [dict(items_A[:c_]) for c_ in cuts]
+    cur = [0]
+
+    def ovA_now():
+        return stagesA[cur[0]]
 
     def ref_for(which, key):
-        d, ov = (refA, ovA) if which == 'A' else (refB, ovB)
-        if key not in d:
-            d[key] = reference(ov, *key)
-        return d[key]
+        if which == 'A':
+            k2 = (key, cur[0])
+            if k2 not in refA:
+                refA[k2] = reference(ovA_now(), *key)
+            return refA[k2]
+        if key not in refB:
+            refB[key] = reference(ovB, *key)
+        return refB[key]
 
-    exA, exB = mk(ovA), mk(ovB)
+    exA, exB = mk(stagesA[0]), mk(ovB)
     case0 = {'book': bi, 'spec': spec, 'overridesA': [[s, wbspec.a1(x, y), wbspec.enc(v)] for (s, x, y), v in ovA.items()],
-             'overridesB': [[s, wbspec.a1(x, y), wbspec.enc(v)] for (s, x, y), v in ovB.items()]}
+             'overridesB': [[s, wbspec.a1(x, y), wbspec.enc(v)] for (s, x, y), v in ovB.items()], 'stagesA': cuts}
     LAST_CASE.clear()
     LAST_CASE.update(case0)
     seen_by = {}     # key -> set of api labels (executor A only)
@@ -175,11 +192,24 @@ def run_book(ctx, bi, ncalls, replay=None, source=None):
             else:
                 si = rng.randrange(ns)
                 schedule.append(['get_sheet', which, titles[si] if rng.random() < 0.5 else si])
+        for k_ in range(1, len(stagesA)):
+            schedule.insert(rng.randrange(3, max(4, len(schedule))), ['set_cells', 'A', k_])
+        # stage ops must come in order
+        order_ = [e_ for e_ in schedule if e_[0] == 'set_cells']
+        it_ = iter(sorted(order_, key=lambda e_: e_[2]))
+        schedule = [next(it_) if e_[0] == 'set_cells' else e_ for e_ in schedule]
     case0['schedule'] = schedule
     for entry in schedule:
         which = entry[1]
         ex = exA if which == 'A' else exB
         log.append(entry)
+        if entry[0] == 'set_cells':
+            k_ = entry[2]
+            delta = [(key_, v_) for key_, v_ in stagesA[k_].items() if key_ not in stagesA[k_ - 1]]
+            exA.set_cells([Cell(si_, c_ - 1, r_ - 1, v_) for (si_, r_, c_), v_ in delta])
+            cur[0] = k_
+            r.count('staged_set_cells')
+            continue
         if entry[0] == 'get_cell':
             key = (entry[2], *wbspec.rc(entry[3]))
             k = entry[4]
@@ -207,7 +237,7 @@ def run_book(ctx, bi, ncalls, replay=None, source=None):
             by_title = isinstance(entry[2], str)
             si = titles.index(entry[2]) if by_title else entry[2]
             o = pipeline.guarded(lambda: ex.get_sheet(titles[si] if by_title else si), 'evaluate')
-            ov = ovA if which == 'A' else ovB
+            ov = ovA_now() if which == 'A' else ovB
             mr, mc = size(ov, si)
             r.count('sheet_grids_checked')
             if not o.ok:
@@ -230,7 +260,7 @@ def run_book(ctx, bi, ncalls, replay=None, source=None):
                         report(r, ID, None, dict(case0, executor=which, api='get_sheet', sheet=si), pos, (si, ri, ci), monitor='sheet-grid-order')
                     check(which, (si, ri + 1, ci + 1), ('V', canon(cell.value)), 'get_sheet')
     # sizes reported after the schedule = sizes before it
-    for which, ex, ov in (('A', exA, ovA), ('B', exB, ovB)):
+    for which, ex, ov in (('A', exA, ovA_now()), ('B', exB, ovB)):
         for si in range(ns):
             o = pipeline.guarded(lambda: ex.get_sheet(si), 'evaluate')
             if o.ok:
